@@ -7,7 +7,8 @@ both advanced by every op line.  Output per line:
   <result> | <Impl internal dump, same format as VerifC16Dump> | <Spec observation> | <defined-name scopes>
 
 ops: reset | new h | del h | copy i j | move h h | ren h h | vis h b b | act i |
-     grp h* | ungrp | defn k h | setc h v | save | chk h
+     grp h* | ungrp | defn k h | setc h v | save | chk h | gidx h | gnm i
+     (gidx / gnm: pure reads of GetSheetIndex / GetSheetName on the current state)
 -/
 namespace XlModel.Drv.C16
 open XlModel XlModel.Sheets XlModel.Drv
@@ -111,6 +112,15 @@ def stepLine (st : St × Spec.Book) (w : List String) : (St × Spec.Book) × Str
     | some n => (st, match checkSheetName n with
       | .ok _ => "ok"
       | .error e => e.tag)
+    | none => (st, "bad-op")
+  | ["gidx", h] => match unhexS h with
+    | some n => (st, match getSheetIndex st.1 n with
+      | .ok (some i) => s!"{i}"
+      | .ok none => "-1"
+      | .error e => e.tag)
+    | none => (st, "bad-op")
+  | ["gnm", i] => match (if i.length ≤ 9 then i.toNat? else none) with
+    | some i => (st, s!"n:{hexS (getSheetName st.1 i)}")
     | none => (st, "bad-op")
   | _ => match parseOp w with
     | none => (st, "bad-op")
